@@ -1349,3 +1349,136 @@ def rule_invmform(ctx: Ctx) -> List[Ob]:
         obs.append(ob("INVMFORM", "form_invMfactors combines D, L, S'S, theta by exact algebra only", f, f.node, True,
                       f"{ncalls} calls, all arithmetic / sqrt / cholesky / assembly", construct="form_invMfactors: operations used"))
     return obs
+
+
+@rule("BPWALK", min_instances=4)
+def rule_bpwalk(ctx: Ctx) -> List[Ob]:
+    """control of the breakpoint walk of the Cauchy search: (a) breakpoints are computed for the variables with a non-zero
+    gradient only and the others never reached (t = inf); (b) variables already at their bound (t = 0) are taken out of
+    the walk; (c) the walk stops -- before touching the segment's quantities -- as soon as the minimiser of the current
+    segment lies inside it (delta_t_min < delta_t); (d) each cycle examines the next breakpoint of the sorted order"""
+    f = ctx.repo.func("cauchy.get_cauchy_point")
+    cfg = ctx.cfg(f)
+    obs: List[Ob] = []
+    loops = [s for s in f.node.body if isinstance(s, (ast.While, ast.For))]
+    need(len(loops) == 1, "BPWALK: breakpoint loop not found")
+    lp = loops[0]
+    pre = f.node.body[: f.node.body.index(lp)]
+    from ..flow import Expander, selection_like
+    ex = Expander(ctx, f, only=selection_like)
+    # (a) mask and infinity
+    gname = "grad" if "grad" in f.params else f.params[1]
+    tnames = {"t"}
+    grew = True
+    while grew:
+        grew = False
+        for s in pre:
+            if isinstance(s, (ast.Assign, ast.AnnAssign)) and getattr(s, "value", None) is not None and isinstance(s.value, ast.Name) \
+                    and src(s.targets[0] if isinstance(s, ast.Assign) else s.target) in tnames and s.value.id not in tnames:
+                tnames.add(s.value.id)      # t = breakpoints_1 (an inlined helper's local)
+                grew = True
+    tdefs = [s for s in pre if isinstance(s, ast.Assign) and isinstance(s.targets[0], ast.Subscript) and src(s.targets[0].value) in tnames]
+    masked = [s for s in tdefs if isinstance(s.value, ast.Call) and dotted(s.value.func) == "np.where"]
+    oka = False
+    why = "no masked assignment of the breakpoints"
+    if masked:
+        m = ex.expand_at(masked[0], masked[0].targets[0].slice)
+        oka = canon_in(m, f"{gname} != 0")
+        why = f"t[{short(m)}] = np.where(..)"
+    infs = [s for s in tdefs if src(s.value) in ("np.inf", "float('inf')", "math.inf")]
+    okinf = bool(infs) and all(canon_in(ex.expand_at(s, s.targets[0].slice), f"{gname} == 0") or
+                               (masked and src(s.targets[0].slice).replace(" ", "") == "~" + src(masked[0].targets[0].slice).replace(" ", "")) for s in infs)
+    obs.append(ob("BPWALK", "breakpoints exist for the variables with a non-zero gradient, the others are never reached", f, masked[0] if masked else f.node,
+                  oka and okinf, why + f"; infinite breakpoints: {[short(s, 40) for s in infs]}", construct="t[grad != 0] = ..; t[grad == 0] = inf"))
+    # (b) t == 0 filtered out of the sorted order
+    flt = [s for s in pre if isinstance(s, (ast.Assign, ast.AnnAssign)) and getattr(s, "value", None) is not None and
+           src(s.targets[0] if isinstance(s, ast.Assign) else s.target) == "sorted_t_idx" and isinstance(s.value, ast.Subscript)]
+    okb = False
+    whyb = "the sorted breakpoints are not filtered"
+    for s in flt:
+        sel = s.value.slice
+        if isinstance(sel, ast.Compare) and len(sel.ops) == 1:
+            l_, r_, op_ = sel.left, sel.comparators[0], type(sel.ops[0])
+            O = src(s.value.value)
+            strict = (op_ is ast.Gt and isinstance(r_, ast.Constant) and r_.value == 0 and src(l_).replace(" ", "") == f"t[{O}]") or \
+                     (op_ is ast.Lt and isinstance(l_, ast.Constant) and l_.value == 0 and src(r_).replace(" ", "") == f"t[{O}]") or \
+                     (op_ is ast.NotEq and isinstance(r_, ast.Constant) and r_.value == 0 and src(l_).replace(" ", "") == f"t[{O}]")
+            # the filtered order is the sorted one: the name itself, or a temporary bound to the argsort of t
+            is_order = O == "sorted_t_idx" or any(
+                isinstance(q, (ast.Assign, ast.AnnAssign)) and getattr(q, "value", None) is not None and src(q.targets[0] if isinstance(q, ast.Assign) else q.target) == O
+                and src(q.value).replace(" ", "") in ("np.argsort(t)", "t.argsort()") for q in pre)
+            okb = okb or (strict and is_order)
+            whyb = f"{short(s, 70)}"
+    obs.append(ob("BPWALK", "variables already on their bound (t = 0) are taken out of the walk", f, flt[0] if flt else lp, okb, whyb,
+                  construct="sorted_t_idx = sorted_t_idx[t[sorted_t_idx] > 0]"))
+    # (c) the stop test comes first and leaves the loop
+    heads_ = [n for n in cfg.nodes if (n.kind == "loophead" and n.owner is lp) or (n.kind == "for" and n.ast is lp)]
+    need(len(heads_) == 1, "BPWALK: head of the breakpoint loop not found")
+    head = heads_[0]
+    stops = []
+    for n in cfg.nodes:
+        if n.kind == "test" and cfg.in_loop(n, lp) and isinstance(n.ast, ast.Compare) and len(n.ast.ops) == 1:
+            l_, r_, op_ = src(n.ast.left), src(n.ast.comparators[0]), type(n.ast.ops[0])
+            if (l_, r_) == ("delta_t_min", "delta_t") and op_ in (ast.Lt, ast.LtE, ast.GtE, ast.Gt):
+                stops.append((n, op_ in (ast.Lt, ast.LtE), op_ in (ast.Lt, ast.GtE)))
+            elif (l_, r_) == ("delta_t", "delta_t_min") and op_ in (ast.Lt, ast.LtE, ast.GtE, ast.Gt):
+                stops.append((n, op_ in (ast.Gt, ast.GtE), op_ in (ast.Gt, ast.LtE)))
+    okc, whyc = False, "no test of delta_t_min against delta_t in the loop"
+    if len(stops) == 1:
+        n, lab_stop, strict = stops[0]
+        from ..flow import node_defs
+        # on the stop outcome the loop is left without passing the head again and without any update of the segment quantities
+        # a flag set on the stop outcome and tested by the loop condition (`while not found and ..`) decides that test
+        stop_side = cfg.reachable(n, follow_exc=False, edge_ok=lambda a, b, lab: not (a is n and lab is (not lab_stop)), avoid=lambda m: m is head)
+        flags = {m.ast.targets[0].id for m in stop_side if m.kind == "stmt" and isinstance(m.ast, ast.Assign) and len(m.ast.targets) == 1
+                 and isinstance(m.ast.targets[0], ast.Name) and isinstance(m.ast.value, ast.Constant) and m.ast.value.value is True}
+
+        def flag_edge_ok(a, b, lab):
+            if a is n and lab is (not lab_stop):
+                return False
+            if a.kind == "test" and a.owner is lp:
+                t_ = a.ast
+                if isinstance(t_, ast.Name) and t_.id in flags and lab is False:
+                    return False
+                if isinstance(t_, ast.UnaryOp) and isinstance(t_.op, ast.Not) and isinstance(t_.operand, ast.Name) and t_.operand.id in flags and lab is True:
+                    return False
+            return True
+        after = cfg.reachable(n, follow_exc=False, edge_ok=flag_edge_ok, avoid=lambda m: not cfg.in_loop(m, lp))
+        body_first = [b for b, lab in cfg.succ[head]] if isinstance(lp, ast.For) else []
+        again = any(m is not n and m is not head and not (m.kind == "test" and m.owner is lp) and m.kind != "loophead"
+                    and m in cfg.reachable(head, follow_exc=False, edge_ok=flag_edge_ok, avoid=lambda q: not cfg.in_loop(q, lp))
+                    for m in cfg.nodes if cfg.in_loop(m, lp) and m.kind in ("stmt", "test") and not (m.kind == "test" and m.owner is lp)) \
+            if head in after else False
+        touched = sorted({k for m in after if cfg.in_loop(m, lp) and m is not n for k, _, _ in node_defs(m) if k.split("[")[0] in
+                          ("c", "p", "f_prime", "f_second", "x_cp", "t_old", "delta_t_min")})
+        # ... and nothing of the segment is updated before the test within a cycle
+        before = [m for m in cfg.nodes if cfg.in_loop(m, lp) and m is not n and n in cfg.reachable(m, follow_exc=False, avoid=lambda q: q is head)
+                  and m in cfg.reachable(head, follow_exc=False, avoid=lambda q: q is n)]
+        early = sorted({k for m in before for k, _, _ in node_defs(m) if k.split("[")[0] in ("c", "p", "f_prime", "f_second", "x_cp")})
+        okc = strict and not again and not touched and not early
+        whyc = f"`{short(n.ast)}`: strict={strict}; the stop outcome can reach the next cycle: {again}; quantities written on the way out: {touched}; before the test: {early}"
+    elif len(stops) > 1:
+        whyc = f"{len(stops)} tests of delta_t_min against delta_t"
+    obs.append(ob("BPWALK", "the walk stops, before updating anything, once the segment contains its minimiser", f, stops[0][0].ast if stops else lp, okc, whyc,
+                  construct="if delta_t_min < delta_t: break"))
+    # (d) each cycle looks at the next breakpoint
+    if isinstance(lp, ast.For):
+        okd = src(lp.iter).replace(" ", "") in ("sorted_t_idx", "iter(sorted_t_idx)") and isinstance(lp.target, ast.Name) and lp.target.id == "ibp"
+        whyd = f"for {short(lp.target)} in {short(lp.iter)}"
+        if not okd and isinstance(lp.iter, ast.Call) and dotted(lp.iter.func) == "enumerate" and lp.iter.args and src(lp.iter.args[0]) == "sorted_t_idx" \
+                and isinstance(lp.target, ast.Tuple) and len(lp.target.elts) == 2 and src(lp.target.elts[1]) == "ibp":
+            okd = True
+    else:
+        from ..flow import node_defs
+        incs = [m for m in cfg.nodes if cfg.in_loop(m, lp) and isinstance(m.ast, ast.AugAssign) and src(m.ast.target) == "_i" and isinstance(m.ast.op, ast.Add)
+                and src(m.ast.value) == "1"]
+        reads = [m for m in cfg.nodes if cfg.in_loop(m, lp) for k, v, how in node_defs(m) if v is not None and src(v).replace(" ", "") == "sorted_t_idx[_i]"]
+        done_ = [m for m in cfg.nodes if cfg.in_loop(m, lp) for k, v, how in node_defs(m)
+                 if v is not None and src(v) in ("np.inf", "math.inf", "float('inf')")]          # the order is exhausted: t_cur = inf
+        okd = len(incs) == 1 and len(reads) >= 1
+        if okd:
+            # from the increment, the head is not reached again without reading the next index, unless the order is exhausted
+            okd = not cfg.exists_path_avoiding(incs[0], head, lambda m: m in reads or m in done_)
+        whyd = f"{len(incs)} increment(s) of _i, {len(reads)} read(s) `ibp = sorted_t_idx[_i]` after it"
+    obs.append(ob("BPWALK", "each cycle examines the next breakpoint of the sorted order", f, lp, bool(okd), whyd, construct="_i += 1; ibp = sorted_t_idx[_i]"))
+    return obs
